@@ -237,6 +237,58 @@ def embedded(run, rng, s: str, others: Tuple[str, str], engine: str) -> None:
                       case=case, engine=engine, key='embedded-dmx')
 
 
+# what may stand directly before / after the quoted string: every other kind of token, with and without a gap
+CTX_PRE = ['#base ', '#include\t', '#base', 'bare ', 'bare', '{', '}', '[flag] ', '[flag]', '= ', '=', ', ', ',', '(a b) ', '(a b)', ': ',
+           ':', '+ ', '+', '// c\n', '/* c */', '/* c */ ', '\n', '\r\n', '\r', '"o"', '"o" ', '\t', '"k" "v"\n', 'a\\', '!', '$x ', '|']
+CTX_SUF = [' #dir', '#dir', ' [flag]', '[flag]', ' // c', '// c', '\r\n', '\n', '\r', '}', '{', '"x"', ' "x"', '=', ',', '+', ':', '(z)',
+           ' bare', 'bare', '/* c */']
+CTX_OPTS = [{}, {'string_bracket': True}, {'allow_star_comments': True}, {'colon_operator': True}, {'plus_operator': True},
+            {'string_bracket': True, 'colon_operator': True, 'plus_operator': True, 'allow_star_comments': True}]
+
+
+def neighbours(run, rng, s: str, engine: str, fixed: Any = None) -> None:
+    """The quoted string between other tokens: the tokens of the surroundings (read on their own), and between them
+    exactly one STRING token with the value s - whatever kind of token stands directly before or after it."""
+    from srctools.tokenizer import Tokenizer, Token, TokenSyntaxError, escape_text
+
+    def toks(text: str, opts: dict) -> Any:
+        try:
+            return list(Tokenizer(text, allow_escapes=True, **opts))
+        except TokenSyntaxError:
+            return None
+
+    if rng is None:
+        combos = [fixed]
+    else:
+        combos = []
+        for _ in range(3):
+            pre, suf, opts, multiline = rng.choice(CTX_PRE), rng.choice(CTX_SUF), rng.choice(CTX_OPTS), rng.random() < 0.5
+            if rng.random() < 0.3:
+                suf = ''
+            elif rng.random() < 0.3:
+                pre = ''
+            combos.append((pre, suf, opts, multiline))
+    for pre, suf, opts, multiline in combos:
+        before, after = toks(pre, opts), toks(suf, opts)
+        if before is None or after is None:
+            continue   # this surrounding is not valid text under these options
+        text = pre + '"' + escape_text(s, multiline) + '"' + suf
+        case = {'s': s, 'before': pre, 'after': suf, 'options': opts, 'multiline': multiline}
+        run.count('neighbour_contexts')
+        if pre.startswith('#'):
+            run.count('strings_directly_after_a_directive')
+        try:
+            got = list(Tokenizer(text, allow_escapes=True, **opts))
+        except TokenSyntaxError as exc:
+            run.violation(f'the escaped string between {pre!r} and {suf!r} was rejected: {exc.mess}', witness={'text': text}, case=case,
+                          engine=engine, key='neighbour-context')
+            continue
+        if got != before + [(Token.STRING, s)] + after:
+            run.violation(f'the escaped string between {pre!r} and {suf!r} did not come back as one STRING token with its value',
+                          witness={'text': text, 'got': [(t.name, v) for t, v in got][:12]}, case=case, engine=engine,
+                          key='neighbour-context')
+
+
 def main(run, shard=(0, 1)) -> None:
     import srctools.tokenizer as tk
     probe = ReachProbe({
@@ -312,16 +364,20 @@ def main(run, shard=(0, 1)) -> None:
             s = rand_text(rng, 24, hostile=0.8)
         others = (rand_text(rng, 6, hostile=0.7), rand_text(rng, 6, hostile=0.7))
         embedded(run, rng, s, others, 'embedded')
+        neighbours(run, rng, s, 'neighbours')
         run.case(['emb', s, others], bool(ESC_CHARS.intersection(s)),
                  sample={'s': s, 'siblings': others} if i < 2 else None, tag='embedded')
     probe.report(run)
     probe.check_reached(run)
-    run.require('exhaustive_strings_x_modes', 'chunked_deliveries', 'embedded_line', 'embedded_kv', 'embedded_vmf', 'embedded_bsp', 'embedded_dmx')
+    run.require('exhaustive_strings_x_modes', 'chunked_deliveries', 'embedded_line', 'embedded_kv', 'embedded_vmf', 'embedded_bsp', 'embedded_dmx', 'neighbour_contexts',
+                'strings_directly_after_a_directive')
 
 
 def replay(run, data) -> None:
     case = data.get('case') or {}
-    if 'siblings' in case:
+    if 'before' in case:
+        neighbours(run, None, case['s'], 'replay', (case['before'], case['after'], case['options'], bool(case['multiline'])))
+    elif 'siblings' in case:
         embedded(run, None, case['s'], tuple(case['siblings']), 'replay')
     else:
         check_one(run, case['s'], bool(case.get('multiline')), 'replay')
